@@ -245,6 +245,39 @@ fn extra(cfg: &RunCfg, w: &mut Worker) {
             n += 1;
         }
     }
+    // size thresholds: fill vs fill_slow_path and wrap_single_line vs slow path on texts around 2^12 and 2^16 bytes,
+    // with trailing spaces, for every option combination of the grid
+    {
+        let mut r = Rng::stream(cfg.seed, &["C05", "large"], w.id as u64);
+        let sizes: &[usize] = if cfg.thorough { &[4090, 4096, 4100, 65530, 65536, 65600] } else { &[4100, 65600] };
+        let grid = small_option_grid();
+        let mut idx = 0usize;
+        for &target in sizes {
+            for g in &grid {
+                idx += 1;
+                if idx % threads != w.id {
+                    continue;
+                }
+                let mut big = String::new();
+                while big.len() < target {
+                    big.push_str(&gen_line(&mut r, TextDomain::Clean));
+                    big.push_str(if r.chance(1, 6) { "   \n" } else { " " });
+                }
+                big.push_str("   ");
+                for width in [60usize, big.len() + 5] {
+                    let mut o = g.clone();
+                    o.width = width;
+                    w.run_case(&Case::new("diff_fill").text(big.clone()).opt(o));
+                }
+                // one long single line that fits: sweep-like check at a single width beyond the byte length
+                let line: String = big.replace('\n', " ");
+                let mut o = g.clone();
+                o.width = line.len() + 1;
+                w.run_case(&Case::new("diff_line").text(line).opt(o).num(0));
+                *w.stats.counters.entry("large_texts".to_string()).or_insert(0) += 1;
+            }
+        }
+    }
     if w.id == 0 {
         w.note_exhaustive(
             "small-strings-sweep",
@@ -263,7 +296,7 @@ fn prop() -> Prop {
         panic_is_violation: false,
         budget: (1200000, 36000000),
         extra: Some(extra),
-        required: &["sweep_crossed_shortcut_threshold", "sweep_second_paragraph", "diff_line_shortcut_taken", "diff_line_general_path", "diff_fill_shortcut_taken", "diff_fill_general_path"],
+        required: &["large_texts", "sweep_crossed_shortcut_threshold", "sweep_second_paragraph", "diff_line_shortcut_taken", "diff_line_general_path", "diff_fill_shortcut_taken", "diff_fill_general_path"],
         known: Some(known),
     }
 }
